@@ -34,6 +34,8 @@ def obligations(tier):
         k("c07__mem_limit__alloc_owned_u64", ml + " [payload u64]", [GC + "::Gc::alloc_owned", GC + "::Gc::alloc_ignore_limit_", GC + "::AllocPtr::new"]),
         k("c07__check_collect__trigger_iff_limit_reached", "collect runs iff allocated >= collect_limit; afterwards collect_limit == 2*allocated; memory_limit untouched", [GC + "::Gc::check_collect", GC + "::Gc::collect", GC + "::Gc::sweep"]),
         v("stack", "StackFrame::add_new_frame", "Ok <=> len + max_stack_size(state) <= stack.max_stack_size; Err(StackOverflow(limit)) leaves the stack unchanged; Ok pushes exactly the frame {offset: len-args, state, excess}", "vm/src/stack.rs::StackFrame::add_new_frame"),
+        v("stack", "StackFrame::enter_scope_excess", "the entry point of every call: Ok <=> len + max_stack_size(state) <= limit, Err(StackOverflow(limit)) otherwise; Ok pushes exactly one frame and leaves the values alone", "vm/src/stack.rs::StackFrame::enter_scope_excess"),
+        v("stack", "StackFrame::enter_scope", "same guarantee for enter_scope (excess = false)", "vm/src/stack.rs::StackFrame::enter_scope"),
         v("compiler", "Instruction::adjust", "adjust(i) == documented stack effect of i", "vm/src/types.rs::Instruction::adjust"),
         v("compiler", "FunctionEnv::increase_stack", "stack_size += n; max_stack_size = max(old max, new size); invariant max >= size", "vm/src/compiler.rs::FunctionEnv::increase_stack"),
         v("compiler", "FunctionEnv::emit", "size' = size + effect(i) (Slide(0) is dropped); instruction appended; max monotone and >= size", "vm/src/compiler.rs::FunctionEnv::emit"),
